@@ -236,6 +236,8 @@ def to_real(v, pb):
         days = sec / 86400
         whole = math.floor(days)
         return Time(EPOCH_MJD + whole, float(days - whole), format="mjd")
+    if isinstance(v, Unit):
+        return real_unit(v, v.dim) if v.name else real_unit(None, v.dim) * float(v.scale)
     if isinstance(v, SSlice):
         return slice(*(None if x is None else int(x) for x in (v.start, v.stop, v.step)))
     if isinstance(v, Cx):
